@@ -53,7 +53,12 @@ fn lim(tier: Tier) -> Limits {
 fn probe_cfg<K: KeyT, V: ValT>(plan: Plan, universe: u8, probes: Vec<Probe>, tier: Tier, tag: &str) -> Box<dyn Config> {
     let mut c = MapCfg::new(plan, universe);
     c.max_buckets = if super::width() == 16 { 64 } else { 32 };
-    c.alphabet = Alphabet::core();
+    // small universes: the full alphabet (every operation that touches the free-slot accounting)
+    c.alphabet = if universe <= 7 { Alphabet::full() } else { Alphabet::core() };
+    if universe <= 7 {
+        c.alphabet.raw_entry = true;
+        c.alphabet.rustc_entry = true;
+    }
     c.probes = probes;
     let label = format!("{}-{}-{}", c.label(), K::NAME, tag);
     Box::new(BfsConfig::new(label, MapHarness::<K, V>::new(c), lim(tier)))
